@@ -813,3 +813,5 @@ func detailOf(c *sut.Client, err error) string {
 	}
 	return d
 }
+
+func xxhashSum(s string) uint64 { return xxhash.Sum64String(s) }
